@@ -129,6 +129,10 @@ func (d *decoder) chunks(chunks [][]byte) (evs []NEv, left int, pan any) {
 
 func (d *decoder) whole(s []byte) ([]NEv, int, any) { return d.chunks([][]byte{s}) }
 
+// modes records application modes on the parser's screen (as EnableMouse / EnablePaste /
+// EnableFocus would); they persist across resets.
+func (d *decoder) modes(mouse tcell.MouseFlags, paste, focus bool) { d.p.SetModes(mouse, paste, focus) }
+
 // decodeChunks / decodeWhole use a fresh parser (slow: building the key table
 // dominates); kept for one-off decodes.
 func decodeChunks(ti *terminfo.Terminfo, charset string, w, h int, chunks [][]byte) (evs []NEv, left int, pan any) {
